@@ -23,7 +23,8 @@ RULE = ('random 1-3-D sources (axis lengths 0-12) labelled injectively in C orde
         'arrays, some empty, parts with their own first stage and their own dtype: one common dtype, byte strings of '
         'different widths in any order, or kinds that katdal rejects; 12% of the common-dtype cases give the parts '
         'their own elementwise dtype-changing chain) plus a fixed sweep of (part dtypes x head kind x dtype-changing '
-        'transform); API forms: index / first stage as a tuple or bare, Python or numpy integers, lists or arrays; '
+        'transform) and a fixed sweep of empty selections of the concatenated indexer (every empty head slice over 5 '
+        'splits, every head kind x tails of which one selects nothing); API forms: index / first stage as a tuple or bare, Python or numpy integers, lists or arrays; '
         'every indexer is asked three times (request, self[:], the request again) and its shape / dtype / len() are '
         'read before and after; a case is one (source kind, shape(s), dtype(s), stage 1, transforms, stage 2, API form); '
         'values, shape AND dtype of every answer are compared; non-trivial when the implementation returns at least '
@@ -696,8 +697,8 @@ def dtype_cause(case, symptom):
 
 
 def concat_empty_class(case):
-    """names the two open findings about EMPTY selections of the concatenated indexer precisely, so that they do not
-    hide other failures on empty selections:
+    """names the two (repaired) findings about EMPTY selections of the concatenated indexer precisely, so that a
+    regression of one of them is recognised and other failures on empty selections get their own cause:
       tail(empty)        F10b: slice / mask head and a tail axis on which nothing is selected (reshape(-1, 0))
       head_slice(empty)  F10:  forward head slice selecting nothing whose start lies in a LATER indexer than its stop
     anything else on an empty selection gets its own cause"""
@@ -915,6 +916,11 @@ def judge(ctx, case, impl, mo):
             ctx.count('api=' + flag)
     if case['kind'] == 'concat' and any(p.get('raw') for p in case['parts']):
         ctx.count('api=raw_array_part')
+    if case['kind'] == 'concat' and out[0] == 'ok' and 0 in out[2]:
+        # empty selections of the concatenated indexer that are ANSWERED (F10 / F10b are repaired)
+        ec = concat_empty_class(case)
+        if ec:
+            ctx.count('concat_empty_answered=' + ec)
     if case['kind'] == 'concat':
         dts = used_dtypes(case)
         ctx.count('concat_dtypes=' + ('common' if len(set(dts)) == 1 else
@@ -1050,6 +1056,42 @@ def dtype_sweep():
         add(lens, dts, [], sweep_heads(lens), [[]])
     return cases
 
+def empty_sweep():
+    """fixed cases around the repaired findings F10 / F10b: head slices [a:b:st] (st = 1, 2, 3; a, b over all
+    positions incl. negative and None: every empty slice whose start lies in a later / the same / an earlier part
+    than its stop, and a third of the others), every head kind combined with tail selections of which one selects
+    nothing (slice, list, all-False mask), over 1-4 parts (some without rows, parts with a first stage of their own
+    and a transform chain on the concatenation), 1-D to 3-D."""
+    cases = []
+    for lens in ([3, 2], [1, 4, 2], [2, 0, 3], [0, 2, 2, 1], [5]):
+        n = sum(lens)
+        pos = [None] + list(range(-n - 1, n + 2))
+        for a in pos:
+            for b in pos:
+                for st in (None, 2, 3):
+                    if len(range(*slice(a, b, st).indices(n))) == 0 or (a is not None and b is not None and (a + b) % 3 == 0):
+                        cases.append(dict(kind='concat', parts=[dict(shape=[h, 2], keep=[]) for h in lens], ts=[], dt=0,
+                                          index=[('s', a, b, st)]))
+    empties = [('s', 2, 1, None), ('s', 0, 0, None), ('l', []), ('m', [0, 0, 0]), ('s', 5, None, None)]
+    others = [('s', None, None, None), ('i', 1), ('l', [0, 2]), ('m', [1, 0, 1]), ('s', None, None, 2)]
+    for lens in ([3, 2], [1, 4, 2], [2, 0, 3]):
+        n = sum(lens)
+        heads = [('s', None, None, None), ('s', 1, n - 1, 2), ('s', n, 1, None), ('s', lens[0], lens[0], None),
+                 ('m', [k % 2 for k in range(n)]), ('m', [0] * n), ('l', [0, n - 1]), ('l', []), ('i', n - 1)]
+        for h in heads:
+            for e in empties:
+                cases.append(dict(kind='concat', parts=[dict(shape=[k, 3], keep=[]) for k in lens], ts=[], dt=0, index=[h, e]))
+                for o in others:
+                    for ix in ([h, e, o], [h, o, e]):
+                        cases.append(dict(kind='concat', parts=[dict(shape=[k, 3, 3], keep=[]) for k in lens], ts=[], dt=0,
+                                          index=list(ix)))
+        # parts with a first stage of their own and a transform chain on the concatenation
+        for h in heads:
+            for e in empties:
+                cases.append(dict(kind='concat', parts=[dict(shape=[k + 2, 3], keep=[('s', 1, -1, None)]) for k in lens],
+                                  ts=[('map', 2, 1, 1)], dt=0, index=[h, e]))
+    return cases
+
 # ----------------------------------------------------------------------------- small-scope exhaustive (thorough)
 
 
@@ -1129,6 +1171,9 @@ def run(ctx):
         sweep = dtype_sweep()
         run_cases(ctx, sweep, pool)
         ctx.extra['dtype_sweep_cases'] = len(sweep)
+        esweep = [norm_case(c) for c in empty_sweep()]
+        run_cases(ctx, esweep, pool)
+        ctx.extra['empty_sweep_cases'] = len(esweep)
         n = ctx.scale(7000, 60000)
         if ctx.searching:
             n = ctx.scale(20000, 60000)
